@@ -143,10 +143,19 @@ func (f *fragWriter) write(b []byte) (aborted bool, err error) {
 
 var nopLogger = zap.NewNop()
 
-func newServer(authEnabled bool) netio.StreamServer {
-	cfg := httpproxy.ServerConfig{EnableBasicAuth: authEnabled}
-	if authEnabled {
-		cfg.Users = []httpproxy.ServerUserCredentials{{Username: goodUser, Password: goodPass}}
+func newServer(p *plan) netio.StreamServer {
+	cfg := httpproxy.ServerConfig{EnableBasicAuth: p.AuthEnabled}
+	if p.AuthEnabled {
+		switch p.UserTable {
+		case usersOne:
+			cfg.Users = []httpproxy.ServerUserCredentials{{Username: goodUser, Password: goodPass}}
+		case usersSeveral:
+			cfg.Users = []httpproxy.ServerUserCredentials{{Username: carolUser, Password: carolPass}, {Username: goodUser, Password: goodPass}, {Username: bobUser, Password: bobPass}}
+		case usersNil:
+			cfg.Users = nil
+		case usersEmpty:
+			cfg.Users = []httpproxy.ServerUserCredentials{}
+		}
 	}
 	s, err := cfg.NewProxyServer()
 	if err != nil {
@@ -161,7 +170,7 @@ func execute(t *testing.T, p *plan) *obs {
 	o := &obs{Got100: map[int]bool{}}
 	synctest.Test(t, func(t *testing.T) {
 		var mu sync.Mutex // guards o
-		server := newServer(p.AuthEnabled)
+		server := newServer(p)
 		cc, sc := bpair(p.T.CapC2P, p.T.PlanC2P, p.T.CapP2C, nil)
 		var (
 			wg        sync.WaitGroup
